@@ -658,6 +658,13 @@ func (n *Net) Listening(address string) bool {
 
 // Dial opens a stream connection to a listener.
 func (n *Net) Dial(network, address string) (*Conn, error) {
+	return n.DialFrom(network, address, nil)
+}
+
+// DialFrom is Dial with a local address chosen by the caller (a peer that binds a fixed source
+// port, or gets the same one again after its previous connection was reset). A nil local address
+// means an ephemeral one.
+func (n *Net) DialFrom(network, address string, local *net.TCPAddr) (*Conn, error) {
 	ip, port, err := splitAddr(address)
 	if err != nil {
 		return nil, &net.OpError{Op: "dial", Net: network, Err: err}
@@ -670,8 +677,14 @@ func (n *Net) Dial(network, address string) (*Conn, error) {
 		n.Stats.Add("stream.refused", 1)
 		return nil, &net.OpError{Op: "dial", Net: network, Addr: raddr, Err: errors.New("connection refused")}
 	}
-	lip, lport := n.ephemeralLocked(ip)
-	laddr := &net.TCPAddr{IP: lip, Port: lport}
+	var laddr *net.TCPAddr
+	if local != nil {
+		laddr = &net.TCPAddr{IP: local.IP, Port: local.Port}
+		n.Stats.Add("stream.local_address_reused", 1)
+	} else {
+		lip, lport := n.ephemeralLocked(ip)
+		laddr = &net.TCPAddr{IP: lip, Port: lport}
+	}
 	n.nextConn++
 	id := n.nextConn
 	hook := n.OnConnect
